@@ -1,5 +1,14 @@
 package main
 
+import (
+	"fmt"
+	"go/token"
+	"go/types"
+	"golang.org/x/tools/go/ssa"
+	"sort"
+	"strings"
+)
+
 func init() { register("C20", propC20) }
 
 func propC20(c *Ctx) propInfo {
@@ -12,6 +21,7 @@ func propC20(c *Ctx) propInfo {
 	c.intFamily(false, true, false)
 	c.jsonPairs("boc", "tlb", "ton", "tl", "abi")
 	c.floor("E13.jsonpair", 9)
+	c.jsonTablePairs("abi", "tlb", "ton")
 	// malformed JSON must be an error, not a panic: every UnmarshalJSON of the listed packages is a root
 	roots := c.methodsNamed([]string{"UnmarshalJSON"}, "boc", "tlb", "ton", "tl")
 	trav := map[string]bool{"boc": true, "tlb": true, "ton": true, "tl": true, "utils": true}
@@ -38,4 +48,78 @@ func mergeExc(ms ...map[string]excEntry) map[string]excEntry {
 		}
 	}
 	return out
+}
+
+// jsonTablePairs: a type whose JSON form names one of several registered Go types (the message-body envelopes of
+// abi: {"SumType": ..., "Value": ...}) looks the name up in a package-level table on both sides. Writer and reader
+// must consult the SAME table: the internal-message table and the external-out table share names ("DedustSwap")
+// that stand for different Go types, and most names of one are unknown to the other. Rule: for every type with
+// both MarshalJSON and UnmarshalJSON, the package-level maps the two methods read - themselves, or by handing them
+// to an unexported helper - are the same set (when the writer reads any).
+func (c *Ctx) jsonTablePairs(rels ...string) {
+	const R = "E13.jsonpair"
+	tables := func(f *ssa.Function) map[string]bool {
+		out := map[string]bool{}
+		for _, g := range c.helperClosure(f, 1, func(h *ssa.Function) bool { return plainHelper(h) == nil }) {
+			if g != f {
+				// a helper's own table reads count; tables it receives as parameters are read at the call site
+			}
+			allInstrs(g, func(_ *ssa.BasicBlock, in ssa.Instruction) {
+				ld, ok := in.(*ssa.UnOp)
+				if !ok || ld.Op != token.MUL {
+					return
+				}
+				gl, ok := ld.X.(*ssa.Global)
+				if !ok || gl.Pkg == nil || !strings.HasPrefix(gl.Pkg.Pkg.Path(), modPath) {
+					return
+				}
+				if _, isMap := gl.Type().(*types.Pointer).Elem().Underlying().(*types.Map); isMap {
+					out[gl.Name()] = true
+				}
+			})
+		}
+		return out
+	}
+	n := 0
+	byRecv := map[string][2]*ssa.Function{}
+	for _, f := range c.methodsNamed([]string{"MarshalJSON", "UnmarshalJSON"}, rels...) {
+		recv := f.Signature.Recv().Type()
+		if pt, ok := recv.(*types.Pointer); ok {
+			recv = pt.Elem()
+		}
+		k := recv.String()
+		e := byRecv[k]
+		if f.Name() == "MarshalJSON" {
+			e[0] = f
+		} else {
+			e[1] = f
+		}
+		byRecv[k] = e
+	}
+	var keys []string
+	for k := range byRecv {
+		keys = append(keys, k)
+	}
+	sort.Strings(keys)
+	for _, k := range keys {
+		w, r := byRecv[k][0], byRecv[k][1]
+		if w == nil || r == nil {
+			continue
+		}
+		tw, tr := tables(w), tables(r)
+		if len(tw) == 0 {
+			continue
+		}
+		n++
+		names := func(m map[string]bool) string {
+			var xs []string
+			for x := range m {
+				xs = append(xs, x)
+			}
+			sort.Strings(xs)
+			return strings.Join(xs, ", ")
+		}
+		c.check(names(tw) == names(tr), R, fnName(w)+" and its reader consult the same table", r.Pos(), "both sides look the type name up in "+names(tw), fmt.Sprintf("%s looks the type name up in {%s}, %s in {%s}: a value the writer prints is unknown to the reader, or is read back as a different Go type that happens to share the name", fnName(w), names(tw), fnName(r), names(tr)))
+	}
+	c.ok(R, "JSON envelopes with a type table", token.NoPos, fmt.Sprintf("%d writer/reader pair(s) that consult a package-level table", n))
 }
